@@ -678,10 +678,22 @@ pub fn run_property(p: &PropertyRun, tier: Tier, seed: u64, root: &std::path::Pa
 
 pub fn replay_file(p: &PropertyRun, path: &std::path::Path, root: &std::path::Path) -> i32 {
     let known = load_known(root);
-    let text = std::fs::read_to_string(path).expect("replay file readable");
-    let j: Value = serde_json::from_str(&text).expect("replay file is JSON");
-    for part in &p.parts {
-        if let Some(o) = part.replay(&j) {
+    let bytes = std::fs::read(path).expect("replay file readable");
+    let text = String::from_utf8_lossy(&bytes).to_string();
+    let candidates: Vec<Value> = match serde_json::from_str::<Value>(&text) {
+        Ok(j) if j.get("case").and_then(|c| c.get("raw_text")).is_some() => raw_candidates(j["case"]["raw_text"].as_str().unwrap_or("")),
+        Ok(j) => vec![j],
+        // a libFuzzer artifact: raw input text
+        Err(_) => raw_candidates(&text),
+    };
+    let mut inconclusive = false;
+    for j in &candidates {
+      for part in &p.parts {
+        if let Some(o) = part.replay(j) {
+            if candidates.len() > 1 && !matches!(o.verdict, Verdict::Fail(_)) {
+                inconclusive |= matches!(o.verdict, Verdict::Skip(_));
+                continue;
+            }
             return match o.verdict {
                 Verdict::Fail(f) => {
                     println!("{}", f.message);
@@ -707,7 +719,126 @@ pub fn replay_file(p: &PropertyRun, path: &std::path::Path, root: &std::path::Pa
                 }
             };
         }
+      }
+    }
+    if candidates.len() > 1 {
+        println!("replay passes{}", if inconclusive { " (some readings inconclusive)" } else { "" });
+        return 0;
     }
     eprintln!("no part of {} understands {}", p.id, path.display());
     2
+}
+
+/// readings of a raw text for the text-driven properties (C14, C15, C16)
+fn raw_candidates(text: &str) -> Vec<Value> {
+    let mut v = vec![];
+    for (part, kind) in [("asp-roundtrip", "program"), ("asp-roundtrip", "term"), ("asp-roundtrip", "rule")] {
+        v.push(json!({"part": part, "case": {"kind": kind, "text": text}}));
+    }
+    for kind in ["theory", "specification", "user-guide", "formula"] {
+        v.push(json!({"part": "fol-roundtrip", "case": {"kind": kind, "text": text}}));
+    }
+    for ext in ["lp", "spec", "ug"] {
+        v.push(json!({"part": "robustness", "case": {"ext": ext, "text": text, "via_cli": false}}));
+    }
+    v
+}
+
+// ---------------------------------------------------------------------------------------
+// coverage-guided fuzzing (thorough tier): libFuzzer targets with the oracle inside the target
+
+pub struct FuzzPart {
+    pub target: &'static str,
+    pub runs_thorough: u64,
+}
+
+impl Part for FuzzPart {
+    fn name(&self) -> &'static str {
+        self.target
+    }
+    fn campaign(&self, ctx: &Ctx) -> PartReport {
+        let mut rep = PartReport {
+            name: format!("libfuzzer:{}", self.target),
+            rule: format!(
+                "cargo-fuzz target {} (oracle inside the target), corpus seeded with the repository's example files, -runs={} -seed=<VERIF_SEED> -max_len=4096; thorough tier only",
+                self.target, self.runs_thorough
+            ),
+            ..Default::default()
+        };
+        if ctx.tier != Tier::Thorough {
+            return rep;
+        }
+        let fuzz_dir = ctx.root.join("fuzz");
+        let corpus = ctx.root.join("target").join("scratch").join(format!("corpus-{}-{}", self.target, std::process::id()));
+        let artifacts = ctx.root.join("target").join("fuzz-artifacts").join(self.target);
+        let _ = std::fs::remove_dir_all(&corpus);
+        let _ = std::fs::create_dir_all(&corpus);
+        let _ = std::fs::create_dir_all(&artifacts);
+        for (i, (ext, text)) in crate::generators::text::example_files().into_iter().enumerate() {
+            let _ = std::fs::write(corpus.join(format!("seed-{i}.{ext}")), text);
+        }
+        let out = std::process::Command::new("cargo")
+            .current_dir(&fuzz_dir)
+            .env("CARGO_NET_OFFLINE", "true")
+            .args(["+nightly", "fuzz", "run", "--fuzz-dir", "."])
+            .arg(self.target)
+            .arg(&corpus)
+            .arg("--")
+            .arg(format!("-runs={}", self.runs_thorough))
+            .arg(format!("-seed={}", (ctx.seed % 4_000_000_000).max(1)))
+            .arg("-max_len=4096")
+            .arg("-len_control=0")
+            .arg("-timeout=60")
+            .arg(format!("-artifact_prefix={}/", artifacts.display()))
+            .output();
+        let _ = std::fs::remove_dir_all(&corpus);
+        match out {
+            Err(e) => rep.internal_errors.push(format!("cannot start cargo fuzz: {e}")),
+            Ok(o) => {
+                let log = String::from_utf8_lossy(&o.stderr).to_string();
+                let done = log
+                    .lines()
+                    .rev()
+                    .find_map(|l| l.strip_prefix("Done ").and_then(|r| r.split_whitespace().next()).and_then(|n| n.parse::<u64>().ok()));
+                if let Some(n) = done {
+                    rep.evaluations = n;
+                    rep.extra.insert("libfuzzer_done_runs".into(), json!(n));
+                }
+                if !o.status.success() {
+                    // a crash: the artifact path is printed by libFuzzer
+                    let artifact = log
+                        .lines()
+                        .find_map(|l| l.split("Test unit written to ").nth(1))
+                        .map(|s| s.trim().to_string());
+                    let message: String = log
+                        .lines()
+                        .filter(|l| l.contains("panicked") || l.contains("C14") || l.contains("C15") || l.contains("ERROR"))
+                        .take(6)
+                        .collect::<Vec<_>>()
+                        .join("\n");
+                    match artifact {
+                        Some(a) => {
+                            let text = std::fs::read(&a).map(|b| String::from_utf8_lossy(&b).to_string()).unwrap_or_default();
+                            rep.violation = Some((
+                                Failure {
+                                    signature: format!("libfuzzer:{}", self.target),
+                                    message: format!("libFuzzer target {} crashed: {message}\n  artifact: {a}", self.target),
+                                },
+                                json!({"raw_text": text, "artifact": a}),
+                            ));
+                        }
+                        None => rep.internal_errors.push(format!(
+                            "cargo fuzz run {} failed without an artifact: {}",
+                            self.target,
+                            log.lines().rev().take(8).collect::<Vec<_>>().join(" | ")
+                        )),
+                    }
+                }
+            }
+        }
+        rep
+    }
+    fn replay(&self, _j: &Value) -> Option<Outcome> {
+        None
+    }
 }
